@@ -28,6 +28,17 @@ class Interactor:
         self.fn = fn
         self.accumulators = accumulators or defaultdict(list)
         self.to_close = []
+        self.context = None
+
+    def suspend(self):
+        """Called when the (generator) function is about to yield."""
+        if self.context is not None:
+            self.context.suspend()
+
+    def resume(self):
+        """Called when the (generator) function is resumed after a yield."""
+        if self.context is not None:
+            self.context.resume()
 
     def register(self, acc, captures, close_at_exit):
         """Register an accumulator for a certain set of captures.
